@@ -18,7 +18,7 @@ Qed.
 
 Lemma presS_RInitErr s s' : InvS s -> step c s RInitErr = Some s' -> InvS s'.
 Proof.
-  start HI H s. guards H. inversion H; subst; clear H. destruct HI; cbn in *. constructor; cbn; fin.
+  start HI H s. guards H; inversion H; subst; clear H; destruct HI; cbn in *; constructor; cbn; fin.
 Qed.
 
 Lemma presS_RReadEnd s got s' : InvS s -> step c s (RReadEnd got) = Some s' -> InvS s'.
@@ -32,7 +32,7 @@ Qed.
 
 Lemma presS_RReadEndErr s s' : InvS s -> step c s RReadEndErr = Some s' -> InvS s'.
 Proof.
-  start HI H s. guards H. inversion H; subst; clear H. destruct HI; cbn in *. constructor; cbn; fin.
+  start HI H s. guards H; inversion H; subst; clear H; destruct HI; cbn in *; constructor; cbn; fin.
 Qed.
 
 Lemma presS_RReadOne s o found s' : InvS s -> step c s (RReadOne o found) = Some s' -> InvS s'.
@@ -41,9 +41,8 @@ Proof.
     pose proof (i_r3 _ eq_refl) as Hro.
   - match goal with X : true = (_ <=? _) |- _ => symmetry in X; apply N.leb_le in X end.
     constructor; cbn; fin.
-    + rewrite app_length. cbn. replace (length b + 1)%nat with (S (length b)) by lia.
-      rewrite seqN_snoc. rewrite <- i_b1. f_equal. f_equal. unfold len in Hro. lia.
-    + inversion H; subst. lia.
+    all: try (rewrite app_length; cbn; replace (length b + 1)%nat with (S (length b)) by lia;
+              rewrite seqN_snoc, <- i_b1; f_equal; f_equal; unfold len in *; lia).
   - exfalso. match goal with X : false = (_ <=? _) |- _ => symmetry in X; apply N.leb_gt in X end. lia.
 Qed.
 Lemma presS_RReadOneErr s o s' : InvS s -> step c s (RReadOneErr o) = Some s' -> InvS s'.
@@ -70,8 +69,7 @@ Qed.
 
 Lemma presS_HNextRound s s' : InvS s -> step c s HNextRound = Some s' -> InvS s'.
 Proof.
-  start HI H s. guards H. inversion H; subst; clear H. destruct HI; cbn in *. constructor; cbn; fin.
-  inversion H; lia.
+  start HI H s. guards H; inversion H; subst; clear H; destruct HI; cbn in *; constructor; cbn; fin.
 Qed.
 
 Lemma presS_HDeliver s s' : InvS s -> step c s HDeliver = Some s' -> InvS s'.
@@ -79,12 +77,11 @@ Proof.
   start HI H s.
   guards H; inversion H; subst; clear H; bools; destruct HI; cbn in *; destruct (i_r4 eq_refl) as [Hb0 Hd]; subst b;
     constructor; cbn; fin.
-  inversion H; lia.
 Qed.
 
 Lemma presS_HNotice s s' : InvS s -> step c s HNotice = Some s' -> InvS s'.
 Proof.
-  start HI H s. guards H. inversion H; subst; clear H. destruct HI; cbn in *. constructor; cbn; fin.
+  start HI H s. guards H; inversion H; subst; clear H; destruct HI; cbn in *; constructor; cbn; fin.
 Qed.
 
 Lemma presS_HClosed s s' : InvS s -> step c s HClosed = Some s' -> InvS s'.
